@@ -7,6 +7,9 @@ package vh
 import (
 	"errors"
 	"fmt"
+	"io/fs"
+	"os"
+	"path/filepath"
 	"testing"
 
 	"github.com/semihalev/twig"
@@ -416,6 +419,9 @@ func checkC11Rel(c C11RelCase) error {
 	if c.Opts&8 != 0 {
 		opts += " sandboxed"
 	}
+	if c.Target == 4 {
+		return checkC11Unreadable(opts)
+	}
 	rel := []string{"./inc", "./gone", "./bad", "./broken"}[c.Target]
 	abs := []string{"pages/inc", "pages/gone", "pages/bad", "pages/broken"}[c.Target]
 	mk := func(name string) (*twig.Engine, map[string]string) {
@@ -463,12 +469,39 @@ func checkC11Rel(c C11RelCase) error {
 	return nil
 }
 
+// checkC11Unreadable: on a real FileSystemLoader the included template is present but cannot
+// be read (a directory stands where the file should be). That is not "does not exist".
+func checkC11Unreadable(opts string) error {
+	root, err := os.MkdirTemp(workDir(), "c11-")
+	if err != nil {
+		return fmt.Errorf("harness: %v", err)
+	}
+	defer os.RemoveAll(root)
+	if err := writeTree(root, map[string]string{"pages/main.twig": "A{% include './part'" + opts + " %}B{% include 'top'" + opts + " %}C", "pages/ok.twig": "ok"}); err != nil {
+		return fmt.Errorf("harness: %v", err)
+	}
+	os.MkdirAll(filepath.Join(root, "pages", "part.twig"), 0o755)
+	os.MkdirAll(filepath.Join(root, "top.twig"), 0o755)
+	e := twig.New()
+	e.RegisterLoader(twig.NewFileSystemLoader([]string{root}))
+	e.EnableSandbox(allowAll{})
+	r := render(e, "pages/main", map[string]interface{}{"p": 1})
+	if r.Panic != "" {
+		return fmt.Errorf("panic: %s", r.Panic)
+	}
+	var pe *fs.PathError
+	if r.Err == "" || errors.Is(r.Error(), twig.ErrTemplateNotFound) || !errors.As(r.Error(), &pe) {
+		return fmt.Errorf("the included template is present but unreadable (a directory named part.twig): render gives %v, want an error wrapping the read failure and not matching ErrTemplateNotFound (options%s)", r, opts)
+	}
+	return nil
+}
+
 func TestC11Relative(t *testing.T) {
-	r := NewRec(t, "C11", "exhaustive: an includer in a sub-directory includes by relative name, all 16 option combinations x {existing template (compared with the include by full name), missing template, loader I/O failure for the name as written, existing template that does not parse}; all cases non-trivial")
+	r := NewRec(t, "C11", "exhaustive: an includer in a sub-directory includes by relative name, all 16 option combinations x {existing template (compared with the include by full name), missing template, loader I/O failure for the name as written, existing template that does not parse, template that is present on a real file-system loader but unreadable}; all cases non-trivial")
 	defer r.Flush()
 	r.SetExhaustive()
 	for opts := 0; opts < 16; opts++ {
-		for target := 0; target < 4; target++ {
+		for target := 0; target < 5; target++ {
 			c := C11RelCase{Opts: opts, Target: target}
 			r.Case(fmt.Sprint(opts, target), true, c)
 			if err := checkC11Rel(c); err != nil {
